@@ -500,6 +500,11 @@ func (l *Linter) lintErrorStatement(stmt *ast.ErrorStatement, ctx *context.Conte
 		l.Error(err.Match(ERROR_STATEMENT_SCOPE))
 	}
 
+	// "error;" without a status code is valid, nothing more to lint
+	if stmt.Code == nil {
+		return types.NeverType
+	}
+
 	// Fastly recommends to use error code between 600 and 699.
 	// https://developer.fastly.com/reference/vcl/statements/error/
 	switch t := stmt.Code.(type) {
